@@ -145,7 +145,19 @@ class Holder:
         return x
 
 
+class CallableSpy(Spy):
+    def __call__(self):
+        return None
+
+
+def closure_maker(x):
+    def inner_fn(y):
+        return y
+    return inner_fn
+
+
 WORKLOADS = {
+    "spy-dict-keys": lambda: {Spy("key"): 1, FakeClass(): 2},
     "spy": lambda: Spy("s"), "fake-class": FakeClass, "lazy-prop": LazyProp, "spy-list": lambda: SpyList([1, 2]), "spy-dict": lambda: SpyDict(a=1),
     "spy-set": lambda: SpySet({1}), "spy-tuple": lambda: SpyTuple((1, 2)), "with-meta": WithMeta, "meta-class-object": lambda: WithMeta,
     "nested": lambda: [Spy("n"), {"k": SpyList([Spy("m")])}, (SpyDict(), LazyProp())],
@@ -213,6 +225,29 @@ def run(ctx):
             else:
                 H.violation("monkeytype.tracing:trace_calls", "differential:%s:%s" % (key, (traced == base, restored, col.flushed, col.n)), "traced program differs from the untraced one",
                             {"workload": name, "k": k}, {"traced": traced, "untraced": base, "restored": restored, "flushed": col.flushed, "logged": col.n})
+    # a profiler installed before tracing starts must be back in place afterwards, whatever fails
+    def prior_profiler(frame, event, arg):
+        return None
+    sys.setprofile(prior_profiler)
+    # a function that can only be resolved through the locals of the calling frames, while a callable tripwire sits in those locals
+    H.section("function lookup through caller locals", "a nested function resolved via previous frames' locals while the caller holds a callable object with attribute hooks", "1 workload")
+    del JOURNAL[:]
+    spy = CallableSpy("callable")
+    fn = closure_maker(1)
+    fn(2)
+    j0 = list(JOURNAL)
+    del JOURNAL[:]
+    col = Collector()
+    with trace_calls(col, 0, lambda code: code.co_filename == __file__ and code.co_name == "inner_fn", None):
+        fn(2)
+    j1 = list(JOURNAL)
+    if j1 == j0:
+        H.ok("callable-in-caller-locals", sample={"journal": len(j1), "traces": col.n})
+    else:
+        hooks = sorted({e[0] + (":" + e[2] if e[0] == "getattribute" else "") for e in j1})
+        H.violation("monkeytype.tracing:_has_code", "C03-has-code-getattr|%s" % hooks, "function lookup reads __code__ / __wrapped__ of a callable found in a caller's locals (runs its attribute hooks)",
+                    {"workload": "callable tripwire in the locals of the calling frame"}, hooks)
+    del spy
     H.section("faults", "logger.log raising on every call; get_type raising (object whose type lookup fails); flush raising: the program's results are unchanged, the profiler is restored, flush is called once", "3 fault kinds")
     old = sys.getprofile()
     col = Collector(fail_log=True)
@@ -236,7 +271,7 @@ def run(ctx):
                     {"fault": "logger.flush raises RuntimeError"}, escaped)
     else:
         H.violation("monkeytype.tracing:trace_calls", "fault:flush:%s:%s" % (sys.getprofile() is old, col.flushed), "flush failure: profiler not restored / flush count wrong", {}, escaped)
-    sys.setprofile(old)
+    sys.setprofile(None)
     return H.result()
 
 
